@@ -40,6 +40,10 @@ CLAIMED = {
   text="Relay.tla gives the sequential meaning of wire.Relay with its cache (put fan-out / cache / default handler, subscribe taking cached envelopes, cache predicates, consumer close, relay close); TLC checks NoWrongNoDup/ExactlyOnePlace and dumps the reachable graph. (a) Every edge is replayed on a real relay with recording consumers; (b) seeded concurrent runs of the real relay are recorded (call/return per operation under one log mutex, final bags) and validated by TLC against RelayTrace.tla, which linearises each operation between its call and return and treats the asynchronous consumer removal as a silent step; (c) free-running 16-goroutine stress with a schedule-independent exactly-once accounting monitor.",
   note="Trusted: TLC, log mutex ordering, recording consumers. Interleavings inside the relay come from the Go scheduler (not enumerated); no hooks in /repo were needed. Bounds: 3-4 envelopes x 2-3 consumers sequentially; 300/3000 recorded traces.", ref="5/C18",
   technique="explicit TLA+ spec (Relay.tla) + trace validation of recorded concurrent executions by TLC (RelayTrace.tla) + exhaustive sequential replay"),
+ "C06": dict(
+  text="Update.tla models the update protocol at burst granularity (call start, channel-mutex hand-over, stage/sign/send, delivery, handler answer, accept/reject, response cache of the channel relay, cancelled/expired contexts); TLC checks the five C06 formulas exhaustively on the design and simulates behaviours, each of which is replayed on two real clients (one or two channels of the pair, steps interleaved) in a synctest bubble with a scheduled bus, strict ledger, recording persisters and scripted handlers. The verdict comes from property monitors on the real observations after every environment step; the comparison with the detailed model is reported as conformance drift.",
+  note="Trusted: TLC, synctest quiescence, harness environment. Bounds: 2 honest clients, versions <= 3, <= 2-3 Update calls per party, no lost/duplicated envelopes; behaviours are sampled by TLC simulation (800 quick / 30000 thorough), the design check is exhaustive.", ref="5/C06",
+  technique="explicit TLA+ spec (Update.tla) model-checked by TLC; TLC-simulated schedules replayed on two real clients with scheduled message delivery; property monitors + step-wise conformance"),
 }
 NA_REASON = "check not built yet (work in progress, see DESIGN.md section 11); not a statement that the technique cannot apply"
 checks = []
